@@ -5,6 +5,12 @@
 //! Index choices are mapped monotonically (`b * n >> 8`), never with `%`, so
 //! shrinking bytes towards zero shrinks towards the first alternative.
 
+pub const AWKWARD_CHARS: &[&str] = &[
+    "\u{feff}", "\u{fffe}", "\u{ffff}", "\u{fffd}", "\u{85}", "\u{a0}", "\u{2028}", "\u{2029}", "\u{200b}", "\u{200d}", "\u{202e}", "\u{301}",
+    "\u{d7ff}", "\u{e000}", "\u{10000}", "\u{10ffff}", "\u{1f600}", "\u{80}", "\u{7ff}", "\u{800}", "\r", "\r\n", "\u{1b}", "\u{8}", "\u{c}", "\u{b}",
+    "\"", "\\", "%", "\u{7f}", "\u{1}", " ", "\t", "\n", "\u{e9}", "\u{20ac}",
+];
+
 pub struct Cs<'a> {
     d: &'a [u8],
     p: usize,
@@ -124,7 +130,16 @@ impl<'a> Cs<'a> {
             if s.len() >= 13 {
                 break;
             }
-            s.push_str(ALPH[self.below(ALPH.len())]);
+            // same stream position and bucket as `below(ALPH.len())`; the last raw byte value of the
+            // first buckets selects an awkward Unicode character instead (keeps old replays decodable)
+            let b = self.u8() as usize;
+            let k = (b * ALPH.len()) >> 8;
+            const EXTRA: &[&str] = &["\u{feff}", "\u{fffe}", "\u{2028}", "\u{85}", "\u{301}", "\u{d7ff}", "\u{e000}", "\u{10ffff}", "\r", "\u{200b}", "\u{ffff}", "\u{fffd}"];
+            if k < EXTRA.len() && (((b + 1) * ALPH.len()) >> 8) != k {
+                s.push_str(EXTRA[k]);
+            } else {
+                s.push_str(ALPH[k]);
+            }
         }
         s
     }
@@ -143,6 +158,21 @@ impl<'a> Cs<'a> {
         let mut s = String::new();
         for _ in 0..n {
             s.push_str(ALPH[self.below(ALPH.len())]);
+        }
+        s
+    }
+    /// Text drawn from the Unicode characters text-handling code tends to treat specially (byte order
+    /// mark, noncharacters, the edges of the surrogate gap, line/paragraph separators, zero-width and
+    /// combining characters, the last code point) mixed with plain ones; NUL-free, 0..=max characters.
+    pub fn text(&mut self, max: usize) -> String {
+        let n = self.below(max + 1);
+        let mut s = String::new();
+        for _ in 0..n {
+            if self.bool() {
+                s.push_str(AWKWARD_CHARS[self.below(AWKWARD_CHARS.len())]);
+            } else {
+                s.push((b'a' + self.below(26) as u8) as char);
+            }
         }
         s
     }
